@@ -30,7 +30,7 @@ RULE = (
 ASSUME = ["only the DOT source is judged (no viewer / PDF)", "ByteFlow cases are limited to functions for which ByteFlow.from_bytecode and restructuring complete (their failures belong to C09/C02)"]
 
 
-def mk_trees(g):
+def mk_trees_old(g):
     trees = {}
     for i, (name, ss) in enumerate(g.items()):
         stmts = [ast.parse(f"v{i} = e({i}, 'q')").body[0]]
